@@ -7,7 +7,7 @@ ROOT = os.path.dirname(os.path.dirname(os.path.abspath(__file__)))
 # id -> (technique, level text, level note)
 P = {
  "C01": ("model-based stateful PBT (proptest op histories + generated hash functions and RNG scripts) against a key-multiset model",
-         "Generated insert/delete/union/clear histories over all four Filter implementations with generated BuildHashers (identity, split, constant, modulo, SipHash) and scripted eviction RNG; after every step every key the model holds must be reported present. Sampling, not proof: finds false negatives reachable within <=600-op histories over <=48-key colliding universes.",
+         "Generated insert/delete/union/clear histories over all four Filter implementations with generated BuildHashers (identity, split, constant, modulo, SipHash), scripted eviction RNG and union operands that (for the cuckoo filter) had elements deleted again; after every step every key the model holds must be reported present. Sampling, not proof: finds false negatives reachable within <=600-op histories over <=48-key colliding universes.",
          "Trusts the harness's multiset model and that the generated BuildHasher families are legal hashers; large tables are only exercised by C07."),
  "C02": ("model-based stateful PBT against exact counts, five counter types, colliding hashers",
          "Histories of add/add_n/merge/clear on u8..u64/usize counters with w != d and whole-row-colliding hashers; checks true(x) <= query_point(x) <= N for every key after every step, the add return value and single-key exactness.",
@@ -19,7 +19,7 @@ P = {
          "Checks n_centroids <= delta+3 at every read and the rank-error bound c*W + 2/n (c=1 smooth, c=3 ties/cliffs) for quantile on a 201-point grid and cdf at data points, for K0..K3.",
          "Rank of quantile(q) judged against the closed rank interval of x +- tolerance; K2/K3 judged only for n >= delta as the property states."),
  "C05": ("statistical PBT over RNG seeds: per-position inclusion frequencies, z=6 + chi-square with confirmation",
-         "Exact regime (n <= 4k+1): every stream position's inclusion frequency against k/n; gap regime: position classes (first k, plain phase, switch item, deciles, last k) against k/n within the documented (1+ln(n/4k))/k envelope.",
+         "Exact regime (n <= 4k+1): every stream position's inclusion frequency against k/n; gap regime: position classes (first k, plain phase, switch item, the k items after it, deciles, last k) against k/n within the documented (1+ln(n/4k))/k envelope; the same on samplers reused after clear().",
          "Probability taken over SmallRng/ChaCha8 seeds derived from VERIF_SEED; bias below ~1/k in the gap regime is by the property's wording not a violation."),
  "C06": ("differential PBT: merged structure vs. fresh structure fed both streams; metamorphic commutativity/associativity/idempotence",
          "For Bloom, Quotient, Cuckoo, CMS and HLL compares every observation of A.merge(B) with a reference that processed A's then B's stream (cuckoo: against the class-multiset model), checks B unchanged and the algebraic laws.",
@@ -39,13 +39,13 @@ P = {
  "C11": ("PBT over configurations with a counting global allocator as oracle",
          "Measures heap bytes held per structure over a configuration grid and growing stream lengths (incl. clear and failed operations) against c * model(config) and against growth with the stream.",
          "'small constant factor' read as c=2 (flat arrays) / c=4 (hash-map/tree based); measured on one thread with a thread-local counting allocator."),
- "C12": ("stateful PBT with full observable snapshots around failing calls; scripted RNG; continuation differential against a pre-call clone",
+ "C12": ("stateful PBT with full observable snapshots around failing calls; scripted RNG; continuation differential against a pre-call clone; libFuzzer target filter_ops in the thorough tier",
          "Fills cuckoo/quotient filters to generated levels, provokes failing inserts and unions failing at first/middle/last transferred fingerprint, and requires the snapshot (len, is_empty, all queries, per-class delete counts), the other operand and a generated continuation to be unaffected.",
          "Snapshot is over the generated universe + 200 fresh keys; continuation uses a cloned RNG state."),
- "C13": ("exhaustive enumeration of insertion sequences for tiny (q, r) + model-based PBT with behaviourally computed fingerprint classes",
+ "C13": ("exhaustive enumeration of insertion sequences for tiny (q, r) + model-based PBT with behaviourally computed fingerprint classes (+ libFuzzer target filter_ops in the thorough tier)",
          "Every insertion sequence up to a length bound and every subset of classes in several orders for small tables (exhaustive), random histories with wrap-around clusters for larger ones; query/len/insert result must equal the class-set model exactly (presence and absence).",
          "Classes are computed behaviourally from single-element filters, no internal formula is replicated."),
- "C14": ("exhaustive enumeration of insert/delete sequences on tiny tables under several RNG scripts + model-based PBT over a class multiset",
+ "C14": ("exhaustive enumeration of insert/delete sequences on tiny tables under several RNG scripts + model-based PBT over a class multiset (+ libFuzzer target filter_ops in the thorough tier)",
          "Checks len, query, delete's return value and exact one-copy removal, Ok(true) on success, unchanged state on Err and guaranteed success below bucketsize elements.",
          "Classes computed behaviourally; per-class copy counts measured by deleting on clones."),
  "C15": ("PBT with metamorphic/invariant oracles (monotonicity, bounds, inverse consistency, idempotent reads)",
@@ -58,12 +58,12 @@ P = {
          "Registers equal the bit-scan reference model for arbitrary boundary hashes at all precisions; order/duplication invariance; add == add_hashed(hash_one); reconstruction equality.",
          "Reference model written from the property text."),
  "C18": ("PBT with scripted/extreme RNG words; validity invariant after every add",
-         "len == min(n,k), items are distinct stream positions < n, prefix order until k, i() == n, is_empty iff n == 0, no panic, across all three phases.",
+         "len == min(n,k), items are distinct stream positions < n, prefix order until k, i() == n, is_empty iff n == 0, no panic, across all three phases, on fresh samplers and on samplers reused after clear().",
          "Stream items are position ids so duplicates are detectable."),
  "C19": ("differential PBT: cleared structure vs. fresh structure under identical continuations (shared RNG stream); clone independence",
          "All nine structures (TDigest x 4 scales): observations after clear equal those of a new structure, step-by-step equal continuation, clone unaffected by mutation of the original and vice versa, is_empty semantics.",
          "RNG-bearing structures get a forked copy of the cleared structure's RNG state."),
- "C20": ("round-trip PBT + structured-document PBT + byte-level mutation/libFuzzer with the invariant oracle in the target",
+ "C20": ("round-trip PBT + structured-document PBT + byte-level mutation PBT (quick and thorough) + libFuzzer campaign (thorough) with the invariant oracle in the target",
          "serde_json round trip equality and identical reaction to further adds/merges; every generated document either fails to deserialise or yields a sketch with 4<=b<=18 and 2^b registers on which add/count/merge do not panic.",
          "serde_json is the only format exercised."),
 }
@@ -108,7 +108,7 @@ m = {
  }],
  "checks": checks,
  "not_applicable": na,
- "notes": "All checks: ./check <ID> <quick|thorough>; exit 0 held, 1 violation (VIOLATION line), 2 inconclusive (build failure, watchdog, degenerate generator). Known findings: /verif/known_findings.json.",
+ "notes": "All checks: ./check <ID> <quick|thorough>; exit 0 held, 1 violation (VIOLATION line), 2 inconclusive (build failure, watchdog incl. the per-case limit, degenerate generator). Known findings: /verif/known_findings.json (10 fixed, 10 known cells of C07/C08). Seeded source changes used to test the checks: /verif/seeded (DESIGN.md section 11).",
 }
 json.dump(m, open(os.path.join(ROOT, "MANIFEST.json"), "w"), indent=1)
 print("MANIFEST.json written:", len(checks), "checks,", len(na), "not_applicable")
